@@ -488,3 +488,35 @@ Lemma hash_first_loses_the_increase :
   d_version d = Some 1 /\ ver_after_restart [KHash; KUuid; KVersion] 1 d [2] = 1 /\
   ver_after_restart [KUuid; KVersion; KHash] 1 d [2] = 2.
 Proof. vm_compute. repeat split; reflexivity. Qed.
+
+(** ---------------- a first start that ends early ---------------- *)
+Lemma source_first_start_order :
+  fsteps_of (order_of Extracted.cfg_save_keys) Extracted.transport_start_steps = [FUuid; FDevice; FUuid; FVersion; FHash].
+Proof. vm_compute. reflexivity. Qed.
+
+(** wherever the first start ended: the next (complete) start finds or creates ONE entity, the
+    accessory's own, and announces the accessory as discoverable *)
+Lemma first_start_cut_recovers : forall order n rid rkey h rid2 rkey2 h2,
+  order = [FUuid; FDevice; FUuid; FVersion; FHash] -> rid <> [] -> rid2 <> [] ->
+  let r := start (first_start_cut order n rid rkey h) rid2 rkey2 h2 in
+  List.length (d_entities (fst r)) = 1%nat /\ c_discoverable (snd r) = true /\
+  (0 < n -> c_id (snd r) = rid)%nat.
+Proof.
+  intros order n rid rkey h rid2 rkey2 h2 -> Hr Hr2.
+  destruct rid as [|a0 rid']; [congruence|]. destruct rid2 as [|b0 rid2']; [congruence|].
+  unfold first_start_cut.
+  destruct n as [|[|[|[|[|n]]]]]; cbn [firstn fold_left fstep_apply empty_disk find_entity d_entities d_uuid d_version d_hash app];
+    rewrite ?firstn_nil; cbn [fold_left];
+    unfold start; cbn [nonempty d_uuid d_entities d_version d_hash find_entity app fst snd c_discoverable c_id];
+    rewrite ?eqb_bytes_refl; cbn [find_entity app List.length fst snd c_discoverable c_id d_entities];
+    rewrite ?eqb_bytes_refl; cbn [List.length d_entities fst snd c_discoverable c_id];
+    repeat split; try reflexivity; try (intros; lia).
+Qed.
+
+(** with the id written last (as the pinned code did) a start that ended after the entity was saved
+    leaves a second entity behind: the accessory is announced as NOT discoverable although no
+    controller was ever paired *)
+Lemma id_last_refuted :
+  let r := start (first_start_cut [FDevice; FUuid; FVersion; FHash] 1 [65] 7 [1]) [66] 8 [1] in
+  List.length (d_entities (fst r)) = 2%nat /\ c_discoverable (snd r) = false.
+Proof. vm_compute. split; reflexivity. Qed.
